@@ -30,6 +30,9 @@ What is mirrored (function by function, in the order of the code)
   `aggValidatorRegistrations`     → `aggRegs`
   `aggLockHashSig`                → `aggLockHashSig`     shares[pk].PublicShares[ShareIdx], Verify, Aggregate
   `createDistValidators`          → `createDistValidators`
+  `signAndAggDepositData`, `signAndAggValidatorRegistrations`, head of `signAndAggLockHash`
+                                  → `signAndAggDepositData`, `signAndAggRegs`, `lockValidators` (what the
+                                                         exchange returned is an argument)
   `signAndAggLockHash` (tail)     → `lockFromAgg`        VerifyAggregate over the returned public shares
   `writeKeysToDisk`               → `keystore`
   `checkThreshold`                → `checkThreshold`
@@ -132,6 +135,8 @@ inductive Err where
   | nodd         -- createDistValidators: "deposit data not found for pubkey"
   | badmulti     -- signAndAggLockHash: "verify multisignature"
   | threshold    -- checkThreshold
+  | panic        -- index out of range (`withdrawalAddresses[i]`, `feeRecipients[idx]`)
+  | timeout      -- `exchange` returned no data ("timed out waiting for peer signatures")
   deriving DecidableEq, Repr
 
 section Glue
@@ -310,6 +315,49 @@ def createDistValidators (shares : List (Share PK SK)) (depositDatas : List (Lis
 /-- `if !cluster.SupportPregenRegistrations(def.Version) { vals[i].BuilderRegistration = {} }`. -/
 def clearRegs (pregen : Bool) (vals : List (DistValidator PK Sig)) : List (DistValidator PK Sig) :=
   if pregen then vals else vals.map fun v => { v with reg := none }
+
+/-- `signAndAggDepositData`: per amount (in the order of `depositAmounts`) sign, exchange under
+sigType `sigDepositData + i`, aggregate. `exch` is what the exchange returned per amount (oracle:
+the network is not part of this function). -/
+def signAndAggDepositData (C : Crypto PK SK Sig M) (shares : List (Share PK SK)) (shareIdx : Nat) (wds : List Nat) :
+    List Nat → List (List (PK × List (ParSig Sig))) → Except Err (List (List (DepositData PK Sig)))
+  | [], _ => .ok []
+  | a :: as, exch =>
+    match signDepositMsgs C shares shareIdx wds a with
+    | none => .error .panic
+    | some (_, msgs) =>
+      match exch with
+      | [] => .error .timeout
+      | data :: rest =>
+        match aggDepositData C data shares msgs with
+        | .error e => .error e
+        | .ok dd =>
+          match signAndAggDepositData C shares shareIdx wds as rest with
+          | .error e => .error e
+          | .ok r => .ok (dd :: r)
+
+/-- `signAndAggValidatorRegistrations`. -/
+def signAndAggRegs (C : Crypto PK SK Sig M) (shares : List (Share PK SK)) (shareIdx : Nat) (fees : List Nat)
+    (gas : Nat) (exch : List (PK × List (ParSig Sig))) : Except Err (List (Registration PK Sig)) :=
+  match signRegs C shares shareIdx fees gas with
+  | none => .error .panic
+  | some (_, msgs) => aggRegs C exch shares msgs
+
+/-- the validators of the lock as `Run` builds them: `signAndAggDepositData`,
+`signAndAggValidatorRegistrations`, then the head of `signAndAggLockHash` (`createDistValidators`,
+registrations cleared for versions without pre-generated registrations). -/
+def lockValidators (C : Crypto PK SK Sig M) (shares : List (Share PK SK)) (shareIdx : Nat) (wds fees : List Nat)
+    (gas : Nat) (amounts : List Nat) (pregen : Bool) (exchDep : List (List (PK × List (ParSig Sig))))
+    (exchReg : List (PK × List (ParSig Sig))) : Except Err (List (DistValidator PK Sig)) :=
+  match signAndAggDepositData C shares shareIdx wds amounts exchDep with
+  | .error e => .error e
+  | .ok dds =>
+    match signAndAggRegs C shares shareIdx fees gas exchReg with
+    | .error e => .error e
+    | .ok regs =>
+      match createDistValidators shares dds regs with
+      | .error e => .error e
+      | .ok vals => .ok (clearRegs pregen vals)
 
 /-- `writeKeysToDisk`: keystore `i` holds the secret of `shares[i]`. -/
 def keystore (shares : List (Share PK SK)) : List SK := shares.map (·.secret)
